@@ -23,14 +23,15 @@ RULE = ('random rank 1-3 float64/complex128 tensors (sizes 1-4) of dyadic ration
         'tensor, broadcastable tensor} with entries 0, 2^-30 (< 1e-8: triggers the fallback tweak) and dyadic values; scaled '
         'functionals nested 1-2 deep (python float/int and tensor scale); separable sums of 2-3 functionals; float64 tensor sigmas '
         'bracketing the 1e-8 switch (2^-27, 2^-26) for the fallback; corpus case = reproduction of the repaired KF-C08-1; an implementation-only '
-        'family with irrational complex moduli (oracles, no model); a malformed stream (negative sigma / scale). Non-trivial = at least one element is actually thresholded/shrunk or reduced (numel > 1 and '
+        'family with irrational complex moduli (oracles) plus ~50 per-element `interval` lemmas L1Norm.prox vs the real model cl1_prox; a malformed stream (negative sigma / scale). Non-trivial = at least one element is actually thresholded/shrunk or reduced (numel > 1 and '
         'a non-zero sigma or a forward reduction); distinct by case hash.')
 TRUSTED_BASE = ['translator harness/translate/functionals.py (symbolic evaluation of the method bodies for fixed dtype flags -> Gallina over R; '
                 'torch.abs/sgn/relu/clamp_max/where/complex/.real/.imag mapped to Rabs/sgnR/reluR/Rmin/Rlt_dec/pairs; fail-closed per function)',
                 'numpy reference formulas of the oracle (independent of the model)',
-                'coherence Q twin <-> real model proved for the real primitives (soft-threshold, L1/L2 value/prox/conj prox) and for '
-                'the exact modulus; the Gaussian-rational tensor layer (broadcast, reduction, complex arithmetic) is tied to the '
-                'code by correspondence, not by a coherence theorem',
+                'coherence Q twin <-> real model proved for the real primitives, the exact modulus, the reduction (sum/mean over the '
+                'reduced index list), pointwise prox on broadcast operands and the per-element value / prox of L1, L2, L1ViewAsReal on '
+                'real data (C08_transfer_*); complex per-element arithmetic of the rational twin (cqmul/cqdiv/cqsgn on non-real data) '
+                'and the conj-prox elements are tied to the code by correspondence only',
                 'torch elementwise kernels (abs, sgn, relu, clamp_max, where, sum, mean) as documented by PyTorch']
 ASSUMPTIONS = ['domain guard: weight, target and sigma broadcast to the shape of x and do not enlarge it',
                'Moreau identity is checked for 1/sigma >= 1e-8 (beyond that the documented `sigma + 1e-6` tweak perturbs the fallback)',
@@ -250,7 +251,100 @@ def _stat(c):
     return c
 
 
+def rlit(v):
+    fr = Fraction(v)
+    t = f'{abs(fr.numerator)}' if fr.denominator == 1 else f'({abs(fr.numerator)} / {fr.denominator})'
+    return t if fr >= 0 else f'(- {t})'
+
+
+IV_PREAMBLE = ('From Coq Require Import Reals Lra.\nFrom Interval Require Import Tactic.\n'
+               'From MrVerif Require Import Model.Functionals Proofs.FunctionalsProofs.\nLocal Open Scope R_scope.\n'
+               'Ltac unfc := unfold cabs, cnorm2, csub, cscale; cbn [fst snd].\n')
+
+
+def interval_lemmas(ctx):
+    """Correspondence for irrational complex moduli: L1Norm.prox on complex data with non-Pythagorean x - b and weights is
+    compared element by element with the real model cl1_prox (Model/Functionals.v) through lemmas closed by `interval`."""
+    rng = ctx.rng
+    want = 50 if ctx.tier == 'quick' else 400
+    items, skipped, k = [], 0, 0
+    while len(items) < want and k < 40 * want:
+        k += 1
+        shape = gen_shape(rng, 12)
+        sigma = gen_sigma(rng, shape)
+        e, x = gen_elem(rng, shape, 'prox', sigma, cls='L1Norm', x_complex=True, exact_modulus=False)
+        if e['w']['kind'] != 't':
+            e['w'] = {'kind': 't', 'shape': [], 're': [dy(rng, 1, 12)], 'im': [dy(rng, -12, 12)]}   # float64 buffers: tight tolerance
+        c = {'op': 'prox', 'funcs': [{'scales': [], 'elem': e}], 'xs': [x], 'sigma': sigma, 'sep': False}
+        try:
+            o = impl(c)
+        except Exception as ex:  # noqa: BLE001
+            ctx.problem('property', 'interval_l1_complex', c, f'valid call raised {vlib.exc_enum(ex)}: {ex}', descr(c))
+            continue
+        msg = oracle(c, o)
+        ctx.evaluations += 1
+        ctx.count('family:interval_l1_complex')
+        if msg:
+            ctx.problem('property', 'interval_l1_complex', c, msg, descr(c), got=o)
+            continue
+        xv = np_x(x)
+        w = bc(e['w'], xv.shape)
+        b = bc(e['b'], xv.shape)
+        w = np.ones(xv.shape) if w is None else w
+        b = np.zeros(xv.shape) if b is None else b
+        sg = sig_arr(sigma, xv.shape)
+        n = nfac(e, xv.shape)
+        got = o['outs'][0]
+        for j in rng.sample(range(xv.size), min(xv.size, 6)):
+            wj, bj, xj, sj = complex(w.flat[j]), complex(b.flat[j]), complex(xv.flat[j]), float(sg.flat[j])
+            margin = abs(xj - bj) - sj / n * abs(wj)
+            if abs(margin) < 1e-6:
+                skipped += 1   # tie between the branches: the strict inequality cannot be decided by interval arithmetic
+                continue
+            yr, yi = got['re'][j], got['im'][j]
+            args = (f'{rlit(n)} ({rlit(wj.real)}, {rlit(wj.imag)}) ({rlit(bj.real)}, {rlit(bj.imag)}) {rlit(sj)} '
+                    f'({rlit(xj.real)}, {rlit(xj.imag)})')
+            tol = f'({2 ** max(0, math.ceil(math.log2(max(1.0, abs(yr), abs(yi)))))} / {2 ** 36})'   # ~1.5e-11 relative
+            branch = 'cl1_prox_shrink' if margin > 0 else 'cl1_prox_kill'
+            items.append((c, j, f'Lemma iv_{len(items)} : Rabs (fst (cl1_prox {args}) - {rlit(yr)}) <= {tol} '
+                                f'/\\ Rabs (snd (cl1_prox {args}) - {rlit(yi)}) <= {tol}.\n'
+                                f'Proof. rewrite {branch} by (unfc; interval with (i_prec 80)). unfc. split; interval with (i_prec 80). Qed.\n'))
+            if len(items) >= want:
+                break
+    ctx.count('interval_lemmas', len(items))
+    ctx.count('interval_branch_ties_skipped', skipped)
+    ctx.obligations += len(items)
+    closed, failed = 0, []
+    # shards, so that one failing lemma does not hide the others
+    shard = 25
+    for s0 in range(0, len(items), shard):
+        part = items[s0:s0 + shard]
+        f = ctx.work / f'interval_{s0}.v'
+        f.write_text(IV_PREAMBLE + ''.join(t for _, _, t in part))
+        rc, so, se = vlib.coqc_file(f)
+        if rc == 0:
+            closed += len(part)
+            continue
+        # find the failing ones one by one
+        for i, (c, j, t) in enumerate(part):
+            g = ctx.work / f'interval_{s0}_{i}.v'
+            g.write_text(IV_PREAMBLE + t)
+            rc1, so1, se1 = vlib.coqc_file(g)
+            if rc1 == 0:
+                closed += 1
+            else:
+                failed.append((c, j, (se1 or so1)[-300:]))
+    ctx.discharged += closed
+    ctx.traces_validated += closed
+    ctx.extra.setdefault('coverage', {})['interval_lemmas'] = {'generated': len(items), 'closed': closed, 'failed': len(failed),
+                                                               'ties_skipped': skipped}
+    for c, j, err in failed[:5]:
+        ctx.problem('correspondence', 'interval_l1_complex', c,
+                    f'L1Norm.prox element {j} differs from the real model cl1_prox (interval lemma does not close): {err}', descr(c))
+
+
 def extra_checks(ctx):
+    interval_lemmas(ctx)
     for k, v in sorted(STATS.items()):
         ctx.count(k, v)
 
